@@ -140,6 +140,18 @@ func suiteScan(o *Out, thorough bool, seed int64) {
 			}
 		}
 	}
+	// fixed texts for branches that random symbols reach once in a million: escapes in identifiers, keywords in other
+	// letter case or glued to a name, 3- and 4-byte characters outside strings, ill-formed UTF-8 of every kind, the
+	// diagnostics of malformed numbers and escapes, a backslash in front of a raw line break
+	for _, t := range []string{"a\\u0062", "a\\u0062c", "a\\u0062 + 1", "a\\u00_62", "\\u0061", "1\\u0061", "a\\u0020b", "a\\u006", "a\\uD83D", "a\\u{62}", "a\\", "a\\x41",
+		"True", "NULL", "This.a", "Typeof a", "typeOf", "CTX", "False", "nullx", "xnull", "null1", "$null", "_this", "typeofa", "typeof1", "truefalse", "th\u0131s", "true1", "1true", "nulL",
+		"\U0001F600", "a\U0001F600b", "a + \U0001D44E", "'s'\U00010000", "1\U0010FFFF", "a.\U0001F600", "\u4e2d", "\u4e2d\u6587 + 1", "a.\u540d", "\uac00", "\u3042x", "\uff21", "\u2118", "\u212e", "x\u0300", "\u0300x", "a\u200cb", "\ufeffa", "a\ufffeb", "\ud7ff", "\ue000",
+		"a\xed\xa0\x80b", "\xc0\xaf", "\xf4\x90\x80\x80", "a\xe2\x80", "a\xf0\x9f\x98", "x\xc2", "'\xed\xa0\x80'", "'\xf0\x9f\x98'", "\xf8\x88\x80\x80\x80", "\xe0\x80\x80", "\xef\xbf\xbe", "\xc2\xc2\x85",
+		"1_", "1__2", "1___2", "1._5", "1.5_", "1e_5", "1_.5", "1_e5", "1e", "1e+", "0x", "0xg", "'\\xg'", "1\u00e9", "12_\n", "1_a", "1e5x", "0x1g", "0X1F", "1..2", "1.e5", "1e5.5", ".5.5", "1__", "_1", "1_000_", "0_1", "00", "01.5",
+		"'a\\\r\nb'", "'a\\\rx\nb'", "'a\\\rb'", "'a\\\r\r\nb'", "'a\\\n\rb'", "\"\\\r\n\"", "'a\\\u2028b'", "'a\\\u0085b'", "'a\\\u2029b'", "'a\\\nb'",
+		"'\\ud83d\\ude00'", "'\\ud800'", "'\\udfff'", "\"\\uD83Dx\"", "'\\ud7ff\\ue000'", "'\\x4'", "'\\x4g'", "'\\u12'", "'\\u004'", "'\\u12 '", "\"\\xa\"", "'\\xg'", "'\\u'", "'\\u{41}'", "'\\x'", "'\\", "'\\0'", "'\\08'", "'\\q'"} {
+		emit([]byte(t), true)
+	}
 	r := newRand(seed, "scan")
 	n := 20000
 	if thorough {
